@@ -269,18 +269,21 @@ def rule_retype(ctx, rep):
                     if rv["cast"].startswith("Transmute"):
                         pa, pb = payload_of_handle(F, src), payload_of_handle(F, dst)
                         if pa is not None and pb is not None:
-                            pairs.append((("payload", pa), ("payload", pb), s["span"], "transmute"))
+                            pairs.append((("payload", pa), ("payload", pb), s["span"], "transmute", bi))
                             continue
                     if a is not None and b2 is not None and a != b2:
-                        pairs.append((("inner", a), ("inner", b2), s["span"], rv["cast"].split("(")[0]))
+                        pairs.append((("inner", a), ("inner", b2), s["span"], rv["cast"].split("(")[0], bi))
                 t = bl["term"]
                 if t["k"] == "call" and atomics.callee_of(t) in ("<*mut T>::cast", "<*const T>::cast", "<core::ptr::non_null::NonNull<T>>::cast"):
                     r = t["resolved"]
                     ga = [x["t"] for x in r["args"] if "t" in x]
                     if len(ga) == 2 and F.is_adt(ga[0], F.inner_path) and F.is_adt(ga[1], F.inner_path) and ga[0] != ga[1]:
-                        pairs.append((("inner", ga[0]), ("inner", ga[1]), t["span"], "cast()"))
-            for (ka, a), (kb, b2), span, how in pairs:
+                        pairs.append((("inner", ga[0]), ("inner", ga[1]), t["span"], "cast()", bi))
+            for (ka, a), (kb, b2), span, how, cast_bb in pairs:
                 ik = "%s -> %s" % (F.ts(a), F.ts(b2))
+                # a re-typing behind a run-time test of the two layouts (`if Layout::new::<T>() != Layout::new::<U>() { slow path }`)
+                # is judged on the shapes that pass the test: the branch conditions whose edge every path to the cast takes
+                guards = _dominating_conditions(F, B, b, cast_bb)
                 tparams = sorted(set(F.ty(x)["name"] for x in list(F.walk(a)) + list(F.walk(b2)) if F.ty(x)["k"] == "param"))
                 ua, ub = L.is_unsized(a), L.is_unsized(b2)
                 bad = None
@@ -289,6 +292,8 @@ def rule_retype(ctx, rep):
                         sh = dict(zip(tparams, combo))
                         for extra in tparams[2:]:
                             sh[extra] = combo[0]
+                        if guards and not _guards_hold(L, guards, sh):
+                            continue
                         for n in (lens if (ua and ub) else [0]):
                             la = L.type_layout(a, sh, n)
                             lb = L.type_layout(b2, sh, n)
@@ -305,6 +310,46 @@ def rule_retype(ctx, rep):
                 else:
                     rep.ok("R-RETYPE", ik, cfg=tag)
     rep.floor("R-RETYPE", 3, "header erasure (both ways), str, protected<->unchecked, MaybeUninit->init, thin<->thick")
+
+
+def _dominating_conditions(F, B, b, goal):
+    """[(condition expression, required truth)] for the boolean branches one of whose edges lies on every path to block `goal`."""
+    from . import c03
+
+    out = []
+    for sj, bl in enumerate(b["blocks"]):
+        tt = bl["term"]
+        if tt["k"] != "switch" or sj == goal:
+            continue
+        c = B.condition(tt["discr"])
+        if not c:
+            continue
+        truth = B.switch_truth(tt)
+        if len(truth) != 2:
+            continue
+        for tgt, tv in truth.items():
+            others = {(sj, x) for x in truth if x != tgt}
+            # every path to the goal goes through (sj -> tgt): cutting that edge makes the goal unreachable, cutting the other does not
+            if not c03.reachable_without(B, {(sj, tgt)}, set(), goal) and c03.reachable_without(B, others, set(), goal):
+                want = tv != c["neg"]
+                if "call" in c:
+                    e = symx.local_expr(F, B, c["call"]["dest"]["l"], 0) if not c["call"]["dest"]["p"] else None
+                else:
+                    e = ("bin", c["op"], symx.expr(F, B, c["a"]), symx.expr(F, B, c["b"]))
+                if e is not None:
+                    out.append((e, want))
+    return out
+
+
+def _guards_hold(L, guards, sh):
+    for e, want in guards:
+        try:
+            v = L.eval(e, sh, {}, 0)
+        except (layout.Unknown, layout.Panic, layout.UB):
+            continue  # not a condition on layouts: no restriction
+        if isinstance(v, int) and bool(v) != want:
+            return False
+    return True
 
 
 def _nobb(e):
